@@ -29,7 +29,7 @@ ASSUMPTIONS = ['computational-basis initial states (ZERO / ONE); at most one sta
                'DetectorOperation / LogicalObservableOperation arguments (acquisition indices) are not fields of a Core leaf and are not compared (C08 / C09 compare them)',
                'leaf labels are not compared (the library has none)']
 RULE = ('constructor inputs: construct_repetition_code_circuit on from_chain descriptions of distance 2..5 with EVERY cycle count 0..6 and refocusing on and off, and on EVERY '
-        'contiguous data-to-data sub-chain of the three shipped layouts (82 descriptions; cycles 0..6 and refocusing spread over them), random data states, ancilla states absent / '
+        'contiguous data-to-data sub-chain of the three shipped layouts (82 descriptions, each with refocusing on and off; cycles 0..6 spread over them), random data states, ancilla states absent / '
         'partial / full; construct_repetition_code_circuit_simplified on chains of distance 2..4 with every cycle count 0..6 and on layout sub-chains; '
         'construct_repetition_code_multi_round_circuit on rounds lists; construct_calibration_circuit for 1..5 qubits, QUBIT and QUTRIT. Observed: the description object through its '
         'accessors, the relation graph in true insertion order, and (small inputs) the listing as constructed and after apply_modifiers(). '
@@ -65,12 +65,12 @@ def gen_cases(rng, tier):
     for name in libgen.LAYOUT_CHAINS:
         for inv in libgen.sub_chains(name):
             d = (len(inv) + 1) // 2
-            for rep_i in range(3 if thorough else 1):
+            for rep_i in range(4 if thorough else 2):
                 j += 1
                 cycles = (j * 3 + rep_i) % 7
                 if d >= 7 and not thorough:
                     cycles = min(cycles, 4)
-                desc = {'src': 'layout', 'name': name, 'involved': inv, 'refocus': j % 3 != 0}
+                desc = {'src': 'layout', 'name': name, 'involved': inv, 'refocus': rep_i % 2 == 0}
                 obs = ['plain', 'unrolled'] if d <= 3 and (thorough or j % 4 == 0) else []
                 cases.append(rep('repcode', desc, [rng.randint(0, 1) for _ in range(d)], _anc(rng, d, modes[j % 4]), cycles,
                                  libgen.gen_env_wide(rng), obs))
